@@ -186,7 +186,26 @@ def judge(ctx, scen, verdicts, what, meta=None):
     return hit
 
 
-def run(ctx):
+def harness_or_crash(ctx, args, what, timeout=3000):
+    """the signal harness runs qiloop in its own process: if that process dies of a panic or a fatal error of the
+    Go runtime the death is a verdict (the tree is broken), not an infrastructure error"""
+    import re
+    rc, out, err = ctx.harness("signal", args, check=False, timeout=timeout)
+    if rc != 0:
+        m = re.search(r"^(panic: .*|fatal error: .*)$", err, re.M)
+        if m:
+            site = re.search(r"^(github.com/lugu/qiloop/[^\s(]+)", err[m.end():], re.M)
+            ctx.failure("signal/crash", "%s: the process died: %s%s" % (what, m.group(1), (" in " + site.group(1)) if site else ""),
+                        {"what": what, "stderr": err[-1500:]})
+            return None
+        raise Infra("harness signal %s exited %d:\n%s" % (what, rc, err[-3000:]))
+    try:
+        return json.loads(out)
+    except Exception:
+        raise Infra("harness signal %s: bad output\n%s" % (what, out[-1000:]))
+
+
+def core(ctx):
     thorough = ctx.tier == "thorough"
     rnd = random.Random(ctx.seed)
 
@@ -248,7 +267,9 @@ def run(ctx):
     if nsim < 150:
         raise Infra("simulation exported %d schedules" % nsim)
     gt = ctx.path("c13-gated.trace")
-    rg = ctx.harness_json("signal", ["c13-gated", sp, gt], timeout=3000)
+    rg = harness_or_crash(ctx, ["c13-gated", sp, gt], "c13-gated")
+    if rg is None:
+        return        # the process running the real code died: reported; nothing more to learn from this tree here
     index = rg["extra"].pop("index")
     ctx.extra.update(rg["extra"])
     scen = split(gt)
@@ -278,7 +299,9 @@ def run(ctx):
     # ---- 3. randomised drivers -----------------------------------------------------------
     rt = ctx.path("c13-rec.trace")
     nrec = 1200 if thorough else 96
-    rr = ctx.harness_json("signal", ["c13-record", rt, str(nrec)], timeout=3000)
+    rr = harness_or_crash(ctx, ["c13-record", rt, str(nrec)], "c13-record")
+    if rr is None:
+        return
     rr["extra"].pop("index", None)
     ctx.extra.update(rr["extra"])
     rscen = split(rt)
@@ -490,6 +513,11 @@ def run(ctx):
         "Write, the reader blocked until the harness ends it)",
         "one emitter: emissions on different objects do not overlap",
     ]
+
+
+
+def run(ctx):
+    core(ctx)
 
     # the life of client-side subscriptions sharing a connection: who owns a handler slot (SubLife.tla)
     import ext_sublife
